@@ -390,7 +390,7 @@ fn main() {
     }
     let n = args.tier.pick(220usize, 8000usize);
     let (seed, tier) = (args.seed, args.tier);
-    let rs = run_cases(n, args.threads, |i| with_setup!(SETUP_NAMES[i % SETUP_NAMES.len()], case, seed, i, tier));
+    let rs = run_cases_isolated(n, args.threads, |i| with_setup!(SETUP_NAMES[i % SETUP_NAMES.len()], case, seed, i, tier));
     rep.add_all(rs);
     rep.finish(args.tier.pick(300, 8000));
 }
